@@ -329,6 +329,14 @@ def _check(run, only_case, facts0, voc, fixed_names, quick, procs, parent):
                 for c in cases:
                     c['group'] = len(adv)
                 adv.append({'id': 500000 + len(adv), 'cases': cases, 'role': kind})
+        # Feature.LISTS: the only call site whose root is not a literal (`<list variable>` / 'list_')
+        lists_words = sorted(set(voc) | {'list_', 'list__1', 'kq_l_1', 'x_1', 'y_1', 'x_2'})
+        for kind in sorted(N.LISTS_TEMPLATES):
+            for k in range(0, len(lists_words), 3):
+                cases = [N.make_lists_case(progen.PRELUDE, kind, w) for w in [N.NEUTRAL] + lists_words[k:k + 3]]
+                for c in cases:
+                    c['group'] = len(adv)
+                adv.append({'id': 500000 + len(adv), 'cases': cases, 'role': kind})
         for g in adv:
             g['kind'] = 'adversarial'
         groups += adv
@@ -560,9 +568,9 @@ def _check(run, only_case, facts0, voc, fixed_names, quick, procs, parent):
     run.oblige('correspondence:body-reads(harness analysis = activity.py)', 'correspondence', not dis_facts, json.dumps(dis_facts[:2], default=str)[:1800])
     # every call site the translator lists was exercised
     if only_case is None:
-        want_sites = {s[0] + ':' + s[1].split('.')[-1] for s in facts0['conv_sites'] + facts0['tr_sites'] if s[0] != 'lists.py'}
+        want_sites = {s[0] + ':' + s[1].split('.')[-1] for s in facts0['conv_sites'] + facts0['tr_sites']}
         missing = sorted(want_sites - set(stats['site_hits']))
-        run.cov['call_sites_not_exercised'] = missing + ['lists.py:_replace_pop_call (LISTS feature is off: optional_features=None)']
+        run.cov['call_sites_not_exercised'] = missing
         run.oblige('coverage:every-new_symbol-call-site-exercised', 'correspondence', not missing, 'not exercised: %s' % missing)
     run.cov['search'] = ('direct oracles (name-set intersection, differential run with control, probes) on %d conversions of the real '
                          'code: %d adversarial cases over %d roles, corpus and finding witnesses' % (len(flat), sum(v['cases'] for v in stats['roles'].values()), len(stats['roles'])))
